@@ -1024,7 +1024,13 @@ static carquet_status_t load_next_page_mmap(
         }
     }
 
-    if (page_header.type != CARQUET_PAGE_DATA && page_header.type != CARQUET_PAGE_DATA_V2) {
+    if (page_header.type == CARQUET_PAGE_DATA_V2) {
+        /* The v2 layout (levels outside the compressed part, no length prefixes)
+         * is not implemented; decoding it as v1 would yield wrong values. */
+        CARQUET_SET_ERROR(error, CARQUET_ERROR_NOT_IMPLEMENTED, "Data page v2 is not supported");
+        return CARQUET_ERROR_NOT_IMPLEMENTED;
+    }
+    if (page_header.type != CARQUET_PAGE_DATA) {
         CARQUET_SET_ERROR(error, CARQUET_ERROR_INVALID_PAGE, "Expected data page");
         return CARQUET_ERROR_INVALID_PAGE;
     }
@@ -1269,7 +1275,13 @@ static carquet_status_t load_next_page_fread(
         }
     }
 
-    if (page_header.type != CARQUET_PAGE_DATA && page_header.type != CARQUET_PAGE_DATA_V2) {
+    if (page_header.type == CARQUET_PAGE_DATA_V2) {
+        /* The v2 layout (levels outside the compressed part, no length prefixes)
+         * is not implemented; decoding it as v1 would yield wrong values. */
+        CARQUET_SET_ERROR(error, CARQUET_ERROR_NOT_IMPLEMENTED, "Data page v2 is not supported");
+        return CARQUET_ERROR_NOT_IMPLEMENTED;
+    }
+    if (page_header.type != CARQUET_PAGE_DATA) {
         CARQUET_SET_ERROR(error, CARQUET_ERROR_INVALID_PAGE, "Expected data page");
         return CARQUET_ERROR_INVALID_PAGE;
     }
